@@ -171,6 +171,20 @@ def runner(rep, tier, seed, replay):
         meta.append((c, line, b, a, files))
     # the same lines as the head of `if` / `else if` / `while` (separate code path: scripting.rs::run_exp_test_br)
     structure.check_heads(rep, jobs, random.Random(seed), 150 if tier == "quick" else 1500, "C13")
+    # the value is an alternative of a typed brace list: the word the list produces is an argument like any other
+    bl = [{"entry": "c", "text": "vpa L {x,$PV} R ; vpa probe", "env": {"PV": pv}, "timeout": 8, "want_files": True} for pv in
+          ("|", "&", "<", ">", "<<<", ";x", "a>b", "|vmk 9 0", "2>&1", ">f9")]
+    for j, res in zip(bl, run_cases(bl)):
+        rep.cov["evaluations"] += 1
+        pv = j["env"]["PV"]
+        pa = [r.get("argv") for r in res.get("log", []) if r.get("h") == "pa"]
+        mk = [r for r in res.get("log", []) if r.get("h") == "mk"]
+        extra = sorted(res.get("files", {}))
+        # (the list may also be left unexpanded when the value holds a `>`: the word is tagged as quoted first - still argument text)
+        if res.get("timed_out") or mk or extra or pa not in ([["L", "x", pv, "R"], ["probe"]], [["L", "{x,%s}" % pv, "R"], ["probe"]]):
+            rep.violation("argv/bracevar/unq", "`%s` with PV=%r: programs %s, hidden commands %d, files %s" % (j["text"], pv, pa, len(mk), extra),
+                          {"case": {"pay": list(pv), "del": "bracevar", "q": "unq", "pos": "middle"}, "line": j["text"], "env": j["env"]},
+                          {"del": "bracevar", "q": "unq", "pos": "middle", "pay": pv, "fail": "argv"})
     results = run_cases(jobs)
     distinct = set()
     for (c, line, b, a, files), res in zip(meta, results):
